@@ -188,7 +188,8 @@ async fn body(c: &Case) -> L2 {
     }
   }
   // LINGER semantics
-  if c.linger == 0 && took > Duration::from_secs(1) {
+  // generous on purpose: what has to be excluded is waiting for the peer or for a linger period
+  if c.linger == 0 && took > Duration::from_secs(5) {
     return v("linger_zero_close_slow", format!("LINGER 0: close/term took {:?}", took));
   }
   if c.linger > 0 && took > Duration::from_millis(c.linger as u64) + Duration::from_secs(2) {
